@@ -385,7 +385,7 @@ def _sounds_of(scene):
     return out
 
 
-def h_image(a: str, b: str, na: int, nb: int, layout: str, version: int, nent: int = 2, order: int = 0) -> None:
+def h_image(a: str, b: str, na: int, nb: int, layout: str, version: int, nent: int = 2, order: int = 0, form: str = "list") -> None:
     """save_scenes_image_sync -> parse_scenes_image: entries sorted by checksum, every string of every scene and
     every summary reproduced exactly, summary consistent with the scene; re-saving the parsed image is identical."""
     import srctools.choreo as ch
@@ -408,7 +408,13 @@ def h_image(a: str, b: str, na: int, nb: int, layout: str, version: int, nent: i
         check(e.checksum == ch.checksum_filename(e.filename), "Entry checksum validator")
         want[e.checksum] = (e.duration_ms, e.last_speak_ms if version == 3 else e.duration_ms, list(e.sounds), e.data)
     f1 = _new_file()
-    ch.save_scenes_image_sync(f1, list(entries), version=version)
+    if form == "list":
+        arg = list(entries)
+    elif form == "dict":            # the documented ScenesImage mapping, keys up to date
+        arg = {e.checksum: e for e in entries}
+    else:                           # a parsed mapping whose entries were renamed afterwards (Entry.filename recomputes the
+        arg = {ch.CRC(i + 1): e for i, e in enumerate(entries)}     # checksum): the keys are stale and in insertion order
+    ch.save_scenes_image_sync(f1, arg, version=version)
     first = f1.getvalue()
     f1.seek(0)
     parsed = ch.parse_scenes_image(f1)
@@ -434,8 +440,8 @@ def h_image(a: str, b: str, na: int, nb: int, layout: str, version: int, nent: i
     check(f2.getvalue() == first, "re-saving the parsed image changed the bytes")
 
 
-def h_image_witness(a: str, b: str, na: int, nb: int, layout: str, version: int, nent: int = 2, order: int = 0) -> None:
-    h_image(a, b, na, nb, layout, version, nent, order)
+def h_image_witness(a: str, b: str, na: int, nb: int, layout: str, version: int, nent: int = 2, order: int = 0, form: str = "list") -> None:
+    h_image(a, b, na, nb, layout, version, nent, order, form)
     raise Fail("reached")
 
 
@@ -1011,7 +1017,7 @@ def _concrete_bytes(b):
         return type(b) is bytes
 
 
-def h_smd(mat: str, multi: bool, has_tri: bool, two_frames: bool, bone_i: int, n: int) -> None:
+def h_smd(mat: str, multi: bool, has_tri: bool, two_frames: bool, bone_i: int, bord: int, n: int) -> None:
     """Mesh.export -> Mesh.parse_smd reproduces bones (names, parents), animation frames and triangles (material, positions,
     normals, UVs, bone links and weights); exporting the parsed mesh writes the same bytes.  Material name symbolic (ASCII,
     exact length; n == -1: constant), third bone's name by symbolic index, single/multiple bone links, with/without triangles."""
@@ -1042,7 +1048,9 @@ def h_smd(mat: str, multi: bool, has_tri: bool, two_frames: bool, bone_i: int, n
         links = [(arm, 0.75), (hand, 0.25)] if multi and i != 1 else [(hand if i == 2 else root, 1.0)]
         return smd.Vertex(Vec(16.0 * i, -8.5, 0.125), Vec(0.0, 0.0, 1.0), 0.5, 0.25 * i, links)
     tris = [smd.Triangle(the_mat, vert(0), vert(1), vert(2)), smd.Triangle("tools/toolsnodraw", vert(2), vert(1), vert(0))] if has_tri else []
-    mesh = smd.Mesh({b.name: b for b in bones}, anim, tris)
+    # the bones mapping may list the bones in any order (a child before its parent, e.g. a root added later)
+    perm = pick([(0, 1, 2), (0, 2, 1), (1, 0, 2), (1, 2, 0), (2, 0, 1), (2, 1, 0)], bord)
+    mesh = smd.Mesh({bones[i].name: bones[i] for i in perm}, anim, tris)
     sink = ChunkSink()
     mesh.export(sink)
     try:
@@ -1076,8 +1084,8 @@ def h_smd(mat: str, multi: bool, has_tri: bool, two_frames: bool, bone_i: int, n
         check(a == b, "smd: second generation output differs", a, b)
 
 
-def h_smd_witness(mat: str, multi: bool, has_tri: bool, two_frames: bool, bone_i: int, n: int) -> None:
-    h_smd(mat, multi, has_tri, two_frames, bone_i, n)
+def h_smd_witness(mat: str, multi: bool, has_tri: bool, two_frames: bool, bone_i: int, bord: int, n: int) -> None:
+    h_smd(mat, multi, has_tri, two_frames, bone_i, bord, n)
     raise Fail("reached")
 
 
@@ -1217,6 +1225,7 @@ def obligations(tier):
     lay = LAYOUTS
     sl = [{"na": 1, "nb": 1, "layout": l, "version": v} for l in lay for v in (2, 3)]
     sl += [{"na": 1, "nb": 1, "layout": "actor/actor", "version": 3, "nent": k, "order": o} for k, o in ((0, 0), (1, 0), (3, 0), (3, 1), (2, 1))]
+    sl += [{"na": 1, "nb": 1, "layout": "actor/actor", "version": v, "nent": 3, "order": o, "form": f} for v in (2, 3) for o in (0, 1) for f in ("dict", "dict_stale")]
     if not quick:
         sl += [{"na": x, "nb": y, "layout": l, "version": 3} for l in lay for (x, y) in ((2, 2), (0, 1), (1, 2), (3, 3))]
     obls.append(Obl("image.roundtrip", MOD, "h_image", slices=sl, budget_s=600, per_path_s=120,
